@@ -10,7 +10,9 @@ import (
 	"encoding/json"
 	"fmt"
 	"os"
+	"os/exec"
 	"path/filepath"
+	"regexp"
 	"sort"
 	"strings"
 
@@ -22,11 +24,15 @@ import (
 )
 
 type TrPlan struct {
-	Module      string   `json:"module"` // repo | scratch
-	Patterns    []string `json:"patterns"`
-	TypeCheck   bool     `json:"typecheck,omitempty"`
-	SrcComments bool     `json:"source_comments,omitempty"`
-	SkipIfaces  bool     `json:"skip_interfaces,omitempty"`
+	// Binary: run the instrumented cmd/goose binary itself (whole-binary
+	// simulation) instead of calling TranslatePackages through the API.
+	Binary       bool     `json:"binary,omitempty"`
+	IgnoreErrors bool     `json:"ignore_errors,omitempty"`
+	Module       string   `json:"module"` // repo | scratch
+	Patterns     []string `json:"patterns"`
+	TypeCheck    bool     `json:"typecheck,omitempty"`
+	SrcComments  bool     `json:"source_comments,omitempty"`
+	SkipIfaces   bool     `json:"skip_interfaces,omitempty"`
 }
 
 func (p TrPlan) config() goose.TranslationConfig {
@@ -102,9 +108,98 @@ func setupScratch() error {
 		}
 		scratchPatterns = append(scratchPatterns, "./good/"+g)
 	}
+	for name, files := range synthPackages {
+		os.MkdirAll(filepath.Join(d, "synth", name), 0755)
+		for fn, src := range files {
+			os.WriteFile(filepath.Join(d, "synth", name, fn), []byte(src), 0644)
+		}
+		scratchPatterns = append(scratchPatterns, "./synth/"+name)
+	}
 	sort.Strings(scratchPatterns)
 	scratchDir = d
 	return nil
+}
+
+// synthPackages are hand-written translator inputs whose declarations refer to
+// several not-yet-emitted declarations (across files too), so that the order
+// in which dependencies are hoisted is exercised.
+var synthPackages = map[string]map[string]string{
+	"fwd": {"fwd.go": `package fwd
+
+func top(x uint64) uint64 {
+	return alpha(x) + beta(x) + gamma(delta(x), epsilon())
+}
+
+type Outer struct {
+	in  Inner
+	mid Middle
+	n   uint64
+}
+
+func (o *Outer) total() uint64 {
+	return helperB(o.in.v) + helperA(o.mid.in.v) + LIMIT + o.n
+}
+
+func zeta(o Outer) uint64 {
+	return helperA(o.n) + helperB(o.n) + alpha(o.n) + epsilon()
+}
+
+type Middle struct {
+	in Inner
+}
+
+type Inner struct {
+	v uint64
+}
+
+const LIMIT uint64 = 4096
+
+func helperA(x uint64) uint64 { return x + 1 }
+func helperB(x uint64) uint64 { return x * 2 }
+func alpha(x uint64) uint64   { return helperB(x) + 1 }
+func beta(x uint64) uint64    { return helperA(x) + 2 }
+func gamma(x uint64, y uint64) uint64 {
+	return x + y
+}
+func delta(x uint64) uint64 { return x }
+func epsilon() uint64       { return LIMIT }
+`},
+	"multi": {
+		"a_first.go": `package multi
+
+func entry(x uint64) uint64 {
+	return fromZ(x) + fromM(x) + fromB(x)
+}
+
+type Pair struct {
+	l Left
+	r Right
+}
+`,
+		"b_second.go": `package multi
+
+func fromB(x uint64) uint64 { return fromZ(x) + fromM(x) + SHIFT }
+
+type Left struct {
+	n uint64
+}
+`,
+		"m_third.go": `package multi
+
+func fromM(x uint64) uint64 { return x + SHIFT }
+
+type Right struct {
+	l Left
+}
+`,
+		"z_last.go": `package multi
+
+const SHIFT uint64 = 3
+
+func fromZ(x uint64) uint64 { return x << SHIFT }
+
+func usePair(p Pair) uint64 { return p.l.n + p.r.l.n + entry(p.l.n) }
+`},
 }
 
 type trResult struct {
@@ -224,6 +319,13 @@ func (c06) Gen(rng *simrt.Rand, tier string, run int) interface{} {
 	p.TypeCheck = rng.Chance(1, 3)
 	p.SrcComments = rng.Chance(1, 3)
 	p.SkipIfaces = rng.Chance(1, 4)
+	if run%8 == 5 && os.Getenv("VERIF_C06_GOOSE") != "" {
+		p.Binary = true
+		p.IgnoreErrors = rng.Chance(1, 3)
+		if len(p.Patterns) > 4 {
+			p.Patterns = p.Patterns[:4]
+		}
+	}
 	return p
 }
 
@@ -281,6 +383,9 @@ func (c06) Exec(pj json.RawMessage, tape *simrt.Tape, keepLog bool) harness.RunO
 	}
 	if err := setupScratch(); err != nil {
 		return harness.RunOut{Infra: "scratch module: " + err.Error()}
+	}
+	if p.Binary {
+		return execBinary(&p, tape, keepLog)
 	}
 	// goldens first (sequential schedule, identity map order, each package alone)
 	gold := map[string]trResult{}
@@ -357,6 +462,185 @@ func (c06) Exec(pj json.RawMessage, tape *simrt.Tape, keepLog bool) harness.RunO
 		}
 	}
 	return out
+}
+
+// ---- whole-binary batch: cmd/goose itself under the simulated scheduler -------------
+
+type binResult struct {
+	exit   int
+	stderr string
+	files  map[string]string
+	tape   simrt.MainTape
+	infra  string
+}
+
+var ansi = regexp.MustCompile("\x1b\\[[0-9;]*m")
+
+func runGooseBinary(p *TrPlan, mt simrt.MainTape) binResult {
+	var r binResult
+	work, err := os.MkdirTemp(".", "bin-")
+	if err != nil {
+		r.infra = err.Error()
+		return r
+	}
+	work, _ = filepath.Abs(work)
+	defer os.RemoveAll(work)
+	tapeFile := filepath.Join(work, "tape.json")
+	outFile := filepath.Join(work, "tape-out.json")
+	tb, _ := json.Marshal(mt)
+	os.WriteFile(tapeFile, tb, 0644)
+	modDir := repoDir()
+	if p.Module == "scratch" {
+		modDir = scratchDir
+	}
+	args := []string{"-out", filepath.Join(work, "out"), "-dir", modDir}
+	if p.TypeCheck {
+		args = append(args, "-typecheck")
+	}
+	if p.SrcComments {
+		args = append(args, "-source-comments")
+	}
+	if p.SkipIfaces {
+		args = append(args, "-skip-interfaces")
+	}
+	if p.IgnoreErrors {
+		args = append(args, "-ignore-errors")
+	}
+	args = append(args, p.Patterns...)
+	cmd := exec.Command(os.Getenv("VERIF_C06_GOOSE"), args...)
+	cmd.Env = append(os.Environ(), "VERIF_SIM_TAPE="+tapeFile, "VERIF_SIM_OUT="+outFile, "NO_COLOR=1")
+	var stderr bytes.Buffer
+	cmd.Stderr = &stderr
+	err = cmd.Run()
+	if cmd.ProcessState == nil {
+		r.infra = fmt.Sprint("cannot run the goose binary: ", err)
+		return r
+	}
+	r.exit = cmd.ProcessState.ExitCode()
+	r.stderr = ansi.ReplaceAllString(stderr.String(), "")
+	r.files = map[string]string{}
+	root := filepath.Join(work, "out")
+	filepath.Walk(root, func(path string, info os.FileInfo, err error) error {
+		if err == nil && !info.IsDir() {
+			b, _ := os.ReadFile(path)
+			rel, _ := filepath.Rel(root, path)
+			r.files[rel] = string(b)
+		}
+		return nil
+	})
+	ob, err := os.ReadFile(outFile)
+	if err != nil {
+		r.infra = "the simulated binary left no tape: " + err.Error() + " stderr: " + clipStr(r.stderr)
+		return r
+	}
+	json.Unmarshal(ob, &r.tape)
+	if r.exit == 97 {
+		r.infra = "simulated binary: " + r.stderr
+	}
+	return r
+}
+
+var binGolden = map[string]binResult{}
+
+func execBinary(p *TrPlan, tape *simrt.Tape, keepLog bool) harness.RunOut {
+	out := harness.RunOut{Probes: map[string]int{"binary_runs": 1}, Faults: map[string]int{}}
+	key, _ := json.Marshal(p)
+	g, ok := binGolden[string(key)]
+	if !ok {
+		g = runGooseBinary(p, simrt.MainTape{}) // empty tape: the sequential schedule
+		if g.infra != "" {
+			out.Infra = "golden run: " + g.infra
+			return out
+		}
+		binGolden[string(key)] = g
+	}
+	mt := simrt.MainTape{Sched: tape.Sched, Aux: tape.Aux, Strat: tape.Strat}
+	if tape.Rng != nil {
+		mt.Seed = tape.Rng.Uint64() | 1
+	}
+	r := runGooseBinary(p, mt)
+	if r.infra != "" {
+		out.Infra = r.infra
+		return out
+	}
+	out.Sched, out.Aux = r.tape.Sched, r.tape.Aux
+	out.Fingerprint = r.tape.Fingerprint
+	out.Events = r.tape.Events
+	out.NonTrivial = len(p.Patterns) >= 2 && r.tape.Switches > len(p.Patterns)+2
+	out.Sample = map[string]interface{}{"plan": p, "exit": r.exit, "files": len(r.files), "events": r.tape.Events, "switches": r.tape.Switches}
+	if keepLog {
+		out.Log = append(out.Log, fmt.Sprintf("goose binary: exit=%d outcome=%s files=%d stderr=%q", r.exit, r.tape.Outcome, len(r.files), clipStr(r.stderr)))
+	}
+	fail := func(oracle, msg string) {
+		if out.Violation == nil {
+			out.Violation = &harness.Violation{Oracle: oracle, Key: oracle + "/binary", Msg: fmt.Sprintf("cmd/goose %v (module %s): %s", p.Patterns, p.Module, msg)}
+		}
+	}
+	if len(r.tape.Panics) > 0 || r.exit == 2 {
+		fail("tr.panic", fmt.Sprintf("the command crashed (exit %d): %v %s", r.exit, r.tape.Panics, clipStr(r.stderr)))
+		return out
+	}
+	if r.exit != g.exit {
+		fail("tr.errors", fmt.Sprintf("exit status %d under this schedule, %d under the sequential schedule", r.exit, g.exit))
+		return out
+	}
+	if r.stderr != g.stderr {
+		fail("tr.errors", "stderr differs from the sequential schedule: "+firstDiff(r.stderr, g.stderr))
+		return out
+	}
+	var names []string
+	for n := range g.files {
+		names = append(names, n)
+	}
+	for n := range r.files {
+		if _, ok := g.files[n]; !ok {
+			names = append(names, n)
+		}
+	}
+	sort.Strings(names)
+	for _, n := range names {
+		a, oka := r.files[n]
+		b, okb := g.files[n]
+		if oka != okb {
+			fail("tr.output", fmt.Sprintf("file %s written=%v under this schedule, written=%v under the sequential schedule", n, oka, okb))
+			return out
+		}
+		if a != b {
+			fail("tr.output", fmt.Sprintf("file %s differs from the sequential schedule: %s", n, firstDiff(a, b)))
+			return out
+		}
+	}
+	// against the library-level goldens: every package that translates alone
+	// without error must have its file, byte-identical
+	for _, pat := range p.Patterns {
+		lg, problem := goldenFor(p, pat)
+		if problem != "" {
+			continue
+		}
+		if lg.err != "" && !p.IgnoreErrors {
+			continue
+		}
+		found := false
+		for _, content := range r.files {
+			if content == lg.text {
+				found = true
+			}
+		}
+		if !found && lg.err == "" {
+			fail("tr.output", fmt.Sprintf("package %s translates without error, but no written file holds its translation (files: %v, exit %d)", pat, keysOf(r.files), r.exit))
+			return out
+		}
+	}
+	return out
+}
+
+func keysOf(m map[string]string) []string {
+	var k []string
+	for n := range m {
+		k = append(k, n)
+	}
+	sort.Strings(k)
+	return k
 }
 
 func main() {
